@@ -259,6 +259,10 @@ fn i5() -> Vec<Case> {
     out
 }
 
+pub fn cases_for_c04(thorough: bool) -> Vec<Case> {
+    i1(thorough).into_iter().chain(i2(thorough)).chain(i4()).chain(i5()).collect()
+}
+
 pub fn run(ctx: &Ctx) -> Report {
     let mut report = Report::new();
     let thorough = ctx.thorough();
